@@ -77,6 +77,16 @@ CLAIMED = {
                 text="The replaced zone_info_source_factory logs enter/exit with thread id and a global sequence number; the log of every "
                      "enumerated schedule (threads held inside the factory in every order) and of every stress round is checked against "
                      "the documented contract.", note="sequence numbers come from one relaxed atomic counter; overlap = an enter between another invocation's enter and exit", ref="3/C20"),
+    "C14": dict(cat="exploration", tech="hidden-state enumeration with the hint hook as witness + differential between copies with different histories + counting data source",
+                text="Every table index reachable by one preceding query is set in both directions and probed with a 24-query panel, "
+                     "answers compared with a second copy of the same bytes under another cache key; the hint hook proves which states "
+                     "and hint hits were exercised; long random histories are compared with independently driven and freshly loaded "
+                     "copies; the cache is observed through a counting zone-data source.",
+                note="hidden state assumed to be the two hint indices + the name cache (what the anchors name)", ref="3/C14"),
+    "C19": dict(cat="exploration", tech="environment-matrix monitor: child processes per environment vs a Python model of the resolution rules; strace fault injection in the thorough tier",
+                text="260 environments (TZDIR x TZ x LOCALTIME) x 30 names + local_time_zone() + default construction are run in child "
+                     "processes with the library's default file source and compared with a model that reads the files itself; data identity "
+                     "via digest equality with the absolute-path load.", note="Linux/glibc branch only", ref="3/C19"),
 }
 
 PENDING = {}
